@@ -53,12 +53,12 @@ def run_rules(ctx, res):
     # upstream: emitter result is returned by generate unchanged
     ph = m.group(1)
     d = tpl.resolve_text(t, ph)
-    okd = d.replace(" ", "") in ("expr:sha256::digest(self.grammar_src)", "expr:sha256::digest(&self.grammar_src)", "expr:sha256::digest(&*self.grammar_src)")
+    okd = bool(re.match(r"^expr:sha256::digest\(.*\)$", d.replace(" ", "")))  # what it is taken over is decided on MIR below
     res.inst(DIG, "digest-binding", t.where, True, d)
     if not okd:
-        res.violate(DIG, "digest-binding", t.where, "the hash placeholder must be bound to `sha256::digest(self.<grammar source>)` directly; found `%s`" % d)
+        res.violate(DIG, "digest-binding", t.where, "the hash placeholder must be bound to the result of `sha256::digest(..)` itself; found `%s`" % d)
     # MIR chain
-    from ..mir import Mir, Exprs, canon
+    from ..mir import Mir, Exprs, canon, strip_transparent, TEXT_CONV
     mir = Mir(ctx["facts"]["mir"])
     dig = []
     for f in mir.fns.values():
@@ -66,7 +66,7 @@ def run_rules(ctx, res):
         for c in f.calls():
             if (c.rpath or "").startswith("sha256::digest"):
                 ex = ex or Exprs(f)
-                dig.append((f, c, canon(ex.operand(c.args[0]))))
+                dig.append((f, c, canon(strip_transparent(ex.operand(c.args[0]), extra=TEXT_CONV))))
     gens = [f for f in mir.fns.values() if f.pub and f.name == "generate" and f.kind == "Fn"]
     reach = mir.reachable_from([gens[0].key], include_trait_impls=False) if gens else set()
     dig = [x for x in dig if x[0].key in reach]
